@@ -246,6 +246,21 @@ def run(ctx):
         tm = os.times()
         ctx.note("t+%.0fs cpu(children)=%.0fs %s" % (time.time() - T0, tm.children_user + tm.children_system, what))
 
+    # ============================================================ F. large string tables (props/C10_big.py): generated,
+    # translated, built under every storage mode and pushed through the model in a background thread; accounted at the end
+    import threading, traceback
+    from props import C10_big as big
+    bigW = {}
+
+    def big_thread():
+        try:
+            bigW.update(big.work(ctx.tier, ctx.seed, ctx.workdir, model, FX_WIDTH))
+        except Exception:
+            bigW["error"] = "worker raised: " + traceback.format_exc()[-1500:]
+    bt = threading.Thread(target=big_thread)
+    if os.environ.get("C10_NO_BIG") != "1":      # development switch (timing of the other parts only)
+        bt.start()
+
     # ============================================================ A. decoder: model / p_string_literal / CPython
     lits = []   # (pre, kind, raw, quote, body, tags)
     fixed = [("", "s", False, '"', "\\777", ["esc:octal3"]), ("b", "b", False, '"', "\\777", ["esc:octal3"]),
@@ -735,7 +750,11 @@ def run(ctx):
             with open(os.path.join(ctx.workdir, "pipeline_debug.json"), "a") as fdbg:
                 fdbg.write(json.dumps([q[i], q[i + 1], mres[i], mres[i + 1]]) + "\n")
             ctx.corr_break("run_module vs py_object (pipeline theorem instance)", q[i][:300], mres[i + 1][:300], mres[i][:300])
-    lap("done")
+    lap("pipeline model compared")
+    if bt.ident is not None:
+        bt.join()
+        big.account(ctx, bigW, model, os.path.join(os.path.dirname(os.path.abspath(ctx.workdir)), "replays"))
+    lap("done (large tables accounted)")
 
 
 def replay(ctx, obj):
